@@ -23,6 +23,29 @@ for sid, r in sorted(res.items()):
     json.dump(meta, open(p, "w"), indent=1)
     print(sid, t, "DETECTED" if t in meta["detected_by"] else "MISSED", ",".join(meta["detected_by"]))
 
+# ---- final target-only sweep: selftest/results/seeded_target.txt
+tp = f"{ROOT}/selftest/results/seeded_target.txt"
+if os.path.exists(tp):
+    import subprocess
+    head = subprocess.check_output(["git", "-C", ROOT, "rev-parse", "--short", "HEAD"], text=True).strip()
+    for line in open(tp):
+        m = re.match(r"^(C\d\d-\d+) (C\d\d) (DETECTED|missed|harness-error)\s*(.*)$", line.rstrip("\n"))
+        if not m:
+            continue
+        p = f"{ROOT}/seeded/{m.group(1)}/meta.json"
+        if not os.path.exists(p):
+            continue
+        meta = json.load(open(p))
+        if meta["breaks_property"] != m.group(2):
+            continue
+        meta["target_check_final"] = {"result": m.group(3), "first_violation": m.group(4).strip()[:240], "simulator_commit_or_later": head}
+        if m.group(3) == "DETECTED" and m.group(2) not in meta["detected_by"]:
+            meta["detected_by"] = sorted(set(meta["detected_by"]) | {m.group(2)})
+        if m.group(3) == "DETECTED":
+            meta["first_violation_of_target_check"] = m.group(4).strip()
+        json.dump(meta, open(p, "w"), indent=1)
+        print(m.group(1), m.group(2), m.group(3))
+
 # ---- independent re-implementations: alarms from selftest/results/refactors_seeded.txt
 rp = f"{ROOT}/selftest/results/refactors_seeded.txt"
 if os.path.exists(rp):
